@@ -126,7 +126,7 @@ func c12b(c *Ctx) {
 		}
 		for _, l := range top.Lits {
 			info := l.Info()
-			yp := l.paramObj("yield")
+			yp := l.soleFuncParam()
 			var ys []Site
 			for _, s := range l.Find(func(n ast.Node) bool {
 				call, ok := n.(*ast.CallExpr)
@@ -583,7 +583,7 @@ func c12f(c *Ctx) {
 			continue
 		}
 		for _, l := range top.Lits {
-			yp := l.paramObj("yield")
+			yp := l.soleFuncParam()
 			for _, s := range l.Find(func(n ast.Node) bool {
 				call, ok := n.(*ast.CallExpr)
 				return ok && yp != nil && objOf(l.Info(), call.Fun) == yp
